@@ -235,6 +235,10 @@ type hslab struct {
 	self atree.SlabID
 	refs []atree.SlabID
 	nil_ bool // a nil entry (pending or cached deletion); only in storage-state dumps
+	// a cache entry whose identifier is also a key of the write set: every reader of the storage
+	// takes the pending entry, the cached OBJECT may be dead (a data slab merged into its sibling by
+	// a request through a handle keeps nil elements and no longer encodes): dumped by key only
+	shadowed bool
 }
 
 // absSlab reduces one in-memory slab to (self, references) with the independent walker and
@@ -283,11 +287,16 @@ func liveHeap(ps *atree.PersistentSlabStorage, diff func(string)) []hslab {
 // storageState dumps write set, cache and ledger as abstract slabs (ledger registers are read by
 // the register walker directly).
 func storageState(ps *atree.PersistentSlabStorage, ledger *hx.Ledger, diff func(string)) (d, c, b []hslab) {
-	conv := func(m map[atree.SlabID]atree.Slab) []hslab {
+	deltas := atree.VerifDeltas(ps)
+	conv := func(m map[atree.SlabID]atree.Slab, isCache bool) []hslab {
 		var out []hslab
 		for id, s := range m {
 			if s == nil {
 				out = append(out, hslab{id: id, nil_: true})
+				continue
+			}
+			if _, pending := deltas[id]; isCache && pending {
+				out = append(out, hslab{id: id, shadowed: true})
 				continue
 			}
 			out = append(out, absSlab(id, s, diff))
@@ -295,8 +304,8 @@ func storageState(ps *atree.PersistentSlabStorage, ledger *hx.Ledger, diff func(
 		sort.Slice(out, func(i, j int) bool { return hx.IDLess(out[i].id, out[j].id) })
 		return out
 	}
-	d = conv(atree.VerifDeltas(ps))
-	c = conv(atree.VerifCache(ps))
+	d = conv(deltas, false)
+	c = conv(atree.VerifCache(ps), true)
 	for _, id := range ledger.SortedIDs() {
 		refs, err := regRefs(ledger.Seg[id])
 		if err != nil {
@@ -312,6 +321,10 @@ func heapLine(h []hslab) string {
 	for i, s := range h {
 		if s.nil_ {
 			parts[i] = hx.IDStr(s.id) + ":nil"
+			continue
+		}
+		if s.shadowed {
+			parts[i] = hx.IDStr(s.id) + ":shadowed"
 			continue
 		}
 		parts[i] = fmt.Sprintf("%s:%d:%s", hx.IDStr(s.id), s.self.AddressAsUint64(), strings.Join(idStrs(s.refs), ","))
